@@ -13,6 +13,11 @@ def P_C05(ctx, log, outcome_kind='ok', val=None, **kw):
         # does it have an enabled simulator (a lost wake-up)?
         blocked = val is not None and not any(d['kind'] == 'quiesce_enabled' for d in val.disc)
         extra = f' [lazy_stepping={kw.get("lazy")} model_blocked={blocked}]'
+    if outcome_kind.startswith('internal') and val is not None:
+        # does the model, run on the same static tables, fail in the same way?  (then the scheduling rules are followed and
+        # the tables are to blame: for non-convex scenarios the ancestors table depends on set order, finding F9)
+        agrees = not any(d['kind'].startswith(('impl_err', 'model_err')) for d in val.disc)
+        extra = f' [model_agrees={agrees}]'
     return [f'run() did not complete: {outcome_kind}{extra} ({val.impl_outcome[:160] if val else ""})']
 
 def nontrivial(case, run, val):
@@ -36,6 +41,7 @@ def features(case, run, val):
 
 def known_match(failure, case, hyp_violated):
     if 'incomparable' in failure: return 'F9'
+    if 'internal:backwards [model_agrees=True]' in failure and not tracelib.convex(case): return 'F9'
     if 'hang' in failure and not tracelib.convex(case): return 'F9h'
     if 'deadlock [lazy_stepping=True model_blocked=True]' in failure and not tracelib.convex(case): return 'F21'
     return None
